@@ -6864,18 +6864,21 @@ moveto_node_alldesc_child(struct lyxp_set *set, const struct lys_module *moveto_
     /* this loop traverses all the nodes in the set and adds/keeps only those that match qname */
     set_init(&ret_set, set);
     for (i = 0; i < set->used; ++i) {
+        start = set->val.nodes[i].node;
+
+        /* a node with an ancestor in the set is traversed as a part of the subtree of that ancestor */
+        for (elem = lyd_parent(start); elem && !set_dup_node_check(set, elem, LYXP_NODE_ELEM, -1);
+                elem = lyd_parent(elem)) {}
+        if (elem) {
+            continue;
+        }
 
         /* TREE DFS */
-        start = set->val.nodes[i].node;
         for (elem = next = start; elem; elem = next) {
             rc = moveto_node_check(elem, LYXP_NODE_ELEM, set, ncname, moveto_mod, options);
             if (!rc) {
                 /* add matching node into result set */
                 set_insert_node(&ret_set, elem, 0, LYXP_NODE_ELEM, ret_set.used);
-                if (set_dup_node_check(set, elem, LYXP_NODE_ELEM, i)) {
-                    /* the node is a duplicate, we'll process it later in the set */
-                    goto skip_children;
-                }
             } else if (rc == LY_EINCOMPLETE) {
                 return rc;
             } else if (rc == LY_EINVAL) {
